@@ -317,3 +317,40 @@ func H_c14_accept() {
 	symAssert(strings.Contains(seq, "|DISCONNECT"), "close-disconnects")
 	symReach("end")
 }
+
+// C14 K7: a burst of more ARQ frames than the driver can queue (4096) while
+// the application is busy for a second: nothing is dropped, the link stays up,
+// Read yields every payload byte in order.
+func H_c14_burst() {
+	emu := &emuARDOP{toHost: make(chan []byte, 256)}
+	tnc, err := Open(emu, "N0CALL", "JP20QE")
+	symAssert(err == nil && tnc != nil, "open-ok")
+	conn, err := tnc.Dial("N1CALL")
+	symAssert(err == nil && conn != nil, "dial-ok")
+	n := symParam("FRAMES", 4600)
+	x := symByte()
+	done := make(chan struct{})
+	go func() {
+		for i := 0; i < n; i++ {
+			emu.sayData([]byte{byte(i) ^ x})
+		}
+		close(done)
+	}()
+	// the application is busy elsewhere until the TNC has delivered the whole burst
+	select {
+	case <-done:
+	case <-time.After(20 * time.Second): // the driver's queue is full and it waits for us (up to a minute)
+	}
+	got := 0
+	for got < n {
+		b := make([]byte, 512)
+		k, err := conn.Read(b)
+		symAssert(err == nil, "read-ok")
+		for j := 0; j < k; j++ {
+			symAssert(b[j] == byte(got+j)^x, "read-yields-the-concatenated-arq-payloads-in-order")
+		}
+		got += k
+	}
+	symAssert(conn.Close() == nil, "close-ok")
+	symReach("end")
+}
